@@ -32,6 +32,17 @@ pub struct AdapterCase {
     pub runtime: u8,
     pub init: Vec<u8>,
     pub ops: Vec<AOp>,
+    /// stress variant (when `streams` > 0): that many streams watching the first signal of
+    /// `init`, consumed by tasks of one runtime with `workers` threads (tokio: multi-thread
+    /// runtime; async-std: that many threads each blocking on its own streams), a flood of real
+    /// deliveries with the generated gaps (in microseconds), then close() on every handle:
+    /// every stream must end
+    #[serde(default)]
+    pub streams: u8,
+    #[serde(default)]
+    pub workers: u8,
+    #[serde(default)]
+    pub flood: Vec<u8>,
 }
 
 pub fn strategy() -> BoxedStrategy<AdapterCase> {
@@ -41,7 +52,7 @@ pub fn strategy() -> BoxedStrategy<AdapterCase> {
         1 => Just(AOp::Close),
         1 => Just(AOp::Pause),
     ];
-    (0u8..2, vec(0u8..3, 1..4), vec(op, 1..10))
+    let plain = (0u8..2, vec(0u8..3, 1..4), vec(op, 1..10))
         .prop_map(|(runtime, init, mut ops)| {
             // only watched signals are raised; nothing is raised after close
             if let Some(p) = ops.iter().position(|o| *o == AOp::Close) {
@@ -52,9 +63,135 @@ pub fn strategy() -> BoxedStrategy<AdapterCase> {
                     *s = init[*s as usize % init.len()];
                 }
             }
-            AdapterCase { runtime, init, ops }
-        })
-        .boxed()
+            AdapterCase { runtime, init, ops, streams: 0, workers: 0, flood: vec![] }
+        });
+    let stress = (0u8..2, 0u8..3, 4u8..10, 3u8..6, vec(0u8..60, 1000..3000)).prop_map(|(runtime, sig, streams, workers, flood)| AdapterCase { runtime, init: vec![sig], ops: vec![], streams, workers, flood });
+    prop_oneof![3 => plain, 1 => stress].boxed()
+}
+
+fn stress_child(case: &AdapterCase, fd: i32) {
+    crate::vsched::install();
+    ignore_sigpipe();
+    let sig = ASIGS[case.init.first().cloned().unwrap_or(0) as usize % 3];
+    let n = case.streams as usize;
+    let workers = case.workers.max(1) as usize;
+    let ended = Arc::new(AtomicUsize::new(0));
+    let seen = Arc::new(AtomicUsize::new(0));
+    let other = Arc::new(AtomicUsize::new(0));
+    let (handle_tx, handle_rx) = std::sync::mpsc::channel::<signal_hook::iterator::Handle>();
+    let mut threads = Vec::new();
+    if case.runtime % 2 == 0 {
+        let (ended, seen, other) = (ended.clone(), seen.clone(), other.clone());
+        threads.push(std::thread::spawn(move || {
+            let rt = tokio::runtime::Builder::new_multi_thread().worker_threads(workers).enable_io().build().expect("tokio runtime");
+            rt.block_on(async {
+                let mut tasks = Vec::new();
+                for _ in 0..n {
+                    let mut signals = signal_hook_tokio::Signals::new(&[sig]).expect("tokio Signals");
+                    handle_tx.send(signals.handle()).unwrap();
+                    let (ended, seen, other) = (ended.clone(), seen.clone(), other.clone());
+                    tasks.push(tokio::spawn(async move {
+                        while let Some(s) = signals.next().await {
+                            if s == sig {
+                                seen.fetch_add(1, Ordering::SeqCst);
+                            } else {
+                                other.fetch_add(1, Ordering::SeqCst);
+                            }
+                        }
+                        ended.fetch_add(1, Ordering::SeqCst);
+                    }));
+                }
+                for t in tasks {
+                    let _ = t.await;
+                }
+            });
+        }));
+    } else {
+        // async-std adapter: `workers` executor threads, the streams dealt out among them
+        for w in 0..workers {
+            let mine = (0..n).filter(|i| i % workers == w).count();
+            let (ended, seen, other) = (ended.clone(), seen.clone(), other.clone());
+            let handle_tx = handle_tx.clone();
+            threads.push(std::thread::spawn(move || {
+                async_io::block_on(async {
+                    let mut streams = Vec::new();
+                    for _ in 0..mine {
+                        let signals = signal_hook_async_std::Signals::new(&[sig]).expect("async-std Signals");
+                        handle_tx.send(signals.handle()).unwrap();
+                        streams.push(signals);
+                    }
+                    // one task per thread polling its streams round-robin until all ended
+                    let mut live: Vec<_> = streams.into_iter().map(Some).collect();
+                    while live.iter().any(|s| s.is_some()) {
+                        let mut futs = Vec::new();
+                        for s in live.iter_mut() {
+                            if let Some(st) = s {
+                                futs.push(st.next());
+                            }
+                        }
+                        let (r, idx, _) = futures_lite_select(futs).await;
+                        let k = live.iter().enumerate().filter(|(_, s)| s.is_some()).nth(idx).map(|(i, _)| i).unwrap();
+                        match r {
+                            Some(s) if s == sig => {
+                                seen.fetch_add(1, Ordering::SeqCst);
+                            }
+                            Some(_) => {
+                                other.fetch_add(1, Ordering::SeqCst);
+                            }
+                            None => {
+                                live[k] = None;
+                                ended.fetch_add(1, Ordering::SeqCst);
+                            }
+                        }
+                    }
+                });
+            }));
+        }
+        drop(handle_tx);
+    }
+    let mut handles = Vec::new();
+    for _ in 0..n {
+        match handle_rx.recv_timeout(std::time::Duration::from_secs(5)) {
+            Ok(h) => handles.push(h),
+            Err(_) => {
+                emit(fd, &json!({"k": "infra", "what": "adapter streams did not start"}));
+                return;
+            }
+        }
+    }
+    // the flood: real deliveries with generated gaps
+    for g in &case.flood {
+        unsafe { libc::raise(sig) };
+        let spin = std::time::Duration::from_micros(*g as u64);
+        let start = std::time::Instant::now();
+        while start.elapsed() < spin {
+            std::hint::spin_loop();
+        }
+    }
+    for h in &handles {
+        h.close();
+    }
+    let start = std::time::Instant::now();
+    while ended.load(Ordering::SeqCst) < n && start.elapsed().as_millis() < 6000 {
+        std::thread::sleep(std::time::Duration::from_micros(500));
+    }
+    let e = ended.load(Ordering::SeqCst);
+    emit(fd, &json!({"k": "stress-end", "ended": e, "streams": n, "seen": seen.load(Ordering::SeqCst), "other": other.load(Ordering::SeqCst), "raised": case.flood.len()}));
+    emit(fd, &json!({"k": "done"}));
+    let _ = threads;
+}
+
+/// first stream to produce an item: (item, index, ())
+async fn futures_lite_select<F: std::future::Future + Unpin>(mut futs: Vec<F>) -> (F::Output, usize, ()) {
+    std::future::poll_fn(move |cx| {
+        for (i, f) in futs.iter_mut().enumerate() {
+            if let std::task::Poll::Ready(v) = std::pin::Pin::new(f).poll(cx) {
+                return std::task::Poll::Ready((v, i, ()));
+            }
+        }
+        std::task::Poll::Pending
+    })
+    .await
 }
 
 struct Shared {
@@ -64,6 +201,9 @@ struct Shared {
 }
 
 fn child(case: &AdapterCase, fd: i32) {
+    if case.streams > 0 {
+        return stress_child(case, fd);
+    }
     crate::vsched::install();
     ignore_sigpipe();
     let watched: Vec<c_int> = case.init.iter().map(|i| ASIGS[*i as usize % 3]).collect();
@@ -170,6 +310,20 @@ pub fn run_case(case: &AdapterCase) -> CaseReport {
         match end {
             End::Signaled(s) => rep.viol(&format!("crash/sig={}", s), format!("{} adapter scenario killed by signal {}", rt, s)),
             _ => rep.inconclusive = Some(format!("adapter probe: {:?} {:?}", end, recs.last())),
+        }
+        return rep;
+    }
+    if let Some(e) = recs.iter().find(|r| r["k"] == "stress-end") {
+        rep.class("adapter-stress");
+        rep.nontrivial = true;
+        if e["ended"] != e["streams"] {
+            rep.viol("C11/adapter-stream-never-ends", format!("{}: {} streams on a {}-thread runtime, a flood of {} deliveries, then close() on every handle: only {} streams ended within 6 s (a polling task is stranded without a wake-up)", rt, e["streams"], case.workers, e["raised"], e["ended"]));
+        }
+        if e["other"].as_u64().unwrap_or(0) > 0 {
+            rep.viol("C10/unwatched=x", format!("{}: a stream yielded a signal that is not in its set", rt));
+        }
+        if e["seen"].as_u64().unwrap_or(0) > e["raised"].as_u64().unwrap_or(0) * e["streams"].as_u64().unwrap_or(0) {
+            rep.viol("C10/over-report", format!("{}: {} yields for {} deliveries on {} streams", rt, e["seen"], e["raised"], e["streams"]));
         }
         return rep;
     }
